@@ -27,6 +27,7 @@ class Scope(list):
             self.push()
         self.deferred = False
         self.real = []
+        self.process_depth = 0
 
     def push(self):
         """Push level on scope
